@@ -330,7 +330,7 @@ func judgeChain(sp Spec, m Msg, s *Send) (cls, in string, finds []Finding, disti
 		scheme = "https"
 	}
 	add := func(key, format string, a ...any) {
-		finds = append(finds, Finding{Key: key, Msg: fmt.Sprintf("egress policy %q, chain %s: ", sp.Egress, s.Beh.Chain) + fmt.Sprintf(format, a...)})
+		finds = append(finds, Finding{Key: key, Msg: "chain " + s.Beh.Chain + ": " + fmt.Sprintf(format, a...)})
 	}
 
 	// the walk the statement allows: the configured target, then every place an ALLOWED Location points to
@@ -398,7 +398,7 @@ func judgeChain(sp Spec, m Msg, s *Send) (cls, in string, finds []Finding, disti
 		u := redirURL(label, scheme)
 		for _, x := range urls {
 			if x == u {
-				add("redir:request-to-refused-location:"+label, "%s was requested although the policy refuses it (%s); requests of this attempt: %v", u, pol.Refused[label], urls)
+				add("redir:request-to-refused-location", "%s was requested although the policy refuses it (%s: %s); requests of this attempt: %v", u, label, pol.Refused[label], urls)
 				break
 			}
 		}
